@@ -158,5 +158,62 @@ func propTable() map[string]PropSpec {
 		Assume:   []string{"client-go is replaced by fakes that record Get / Update / Delete / List calls (the server side of the API is not modelled)", "fmt.Sprintf of a symbolic ordinal is concretised by forking over [0,16]", "logging is a no-op"},
 		Outside:  []string{"replica counts above 6, more than 2 claim templates or 3 pods", "label-selector plumbing inside client-go", "the 2-minute not-ready grace period against real time (only its logic against the symbolic clock)"},
 	}
+	t["C03"] = PropSpec{
+		ID: "C03", Pkg: coordPkg, NativeDir: "coordinator",
+		Quick:    append([]HarnessRun{H("VAssign", 6, 2, 2), H("VCycle", 12, 1, 1, 0), H("VCycle", 6, 2, 0, 0)}, lemmas...),
+		Thorough: append([]HarnessRun{H("VAssign", 6, 3, 2), H("VCycle", 12, 1, 1, 0), H("VCycle", 8, 1, 2, 0), H("VCycle", 8, 2, 1, 8), H("VCycle", 8, 2, 1, 0)}, lemmas...),
+		Required: []string{"c03.placed", "c03.allinsync", "c03.stability.checked", "assign.placed"},
+		Prefixes: []string{"C03."},
+		Bounds:   "single-cycle layer only: scale-up clause, at-most-once / normal-state placement, placement-when-room (K=1) and the no-op-from-a-converged-state clause on whole cycles at (S,K) = (1,1), (2,0) (thorough + (1,2), (2,1)); assignNoScrapingTargets lemma with S<=2 (3), K<=2",
+		Assume:   wfAssumptions,
+		Outside:  append([]string{"the multi-cycle quantifier (\"reaches within a bounded number of cycles\") is NOT covered: no closed loop of coordinator and sidecars over several cycles is explored; only necessary single-cycle consequences are decided", "stability is asserted for max-idle-time = 0 only"}, cycleOutside...),
+	}
+	t["C06"] = PropSpec{
+		ID: "C06", Pkg: coordPkg, NativeDir: "coordinator",
+		Quick:    []HarnessRun{H("VCycle", 12, 1, 1, 0), H("VCycle", 8, 2, 1, 8)},
+		Thorough: []HarnessRun{H("VCycle", 12, 1, 1, 0), H("VCycle", 8, 2, 1, 0), H("VCycle", 8, 2, 2, 8)},
+		Required: []string{"c06.lone", "c06.duplicate"},
+		Prefixes: []string{"C06."},
+		Bounds:   "single-cycle progress lemmas from the states faults leave behind (a lone in_transfer copy; two copies on in-sync shards in every state / load / counter combination) on whole cycles at (S,K) = (1,1), (2,1) (thorough + (2,2) in sync)",
+		Assume:   wfAssumptions,
+		Outside:  append([]string{"the multi-cycle quantifier (recovery within a bounded number of cycles after the last fault) is NOT covered; each fault-produced state is decided as a single-cycle progress obligation", "fault injection at harness-owned boundaries over several cycles (sidecar restart, scale-down) is not explored"}, cycleOutside...),
+	}
+	t["C19"] = PropSpec{
+		ID: "C19", Pkg: coordPkg, NativeDir: "coordinator",
+		Quick:    []HarnessRun{H("VTwoReplicas", 8, 1, 1, 16, 8)},
+		Thorough: []HarnessRun{H("VTwoReplicas", 8, 1, 1, 16, 8), H("VTwoReplicas", 8, 2, 1, 16, 8), H("VTwoReplicas", 8, 1, 1, 16, 0), H("VTwoReplicas", 8, 1, 1, 0, 8)},
+		Required: []string{"tworep.ran", "tworep.posted", "tworep.end"},
+		Prefixes: []string{"C19."},
+		Bounds:   "self-composition of runOnce: a cycle over replicas [A, B] against a cycle over [B] alone with equal-valued reports and an equal explorer state, K = 1 target, B one in-sync shard (thorough: any kind), A one shard (thorough two) of any kind, with concrete loads (thorough: symbolic), or failing to list shards / to scale (early and final request); clock frozen so that both cycles see the same instant",
+		Assume:   append([]string{"the explorer hands out the same status object per hash within a cycle; the comparison cycle starts from an equal copy of the explorer's state before the cycle"}, wfAssumptions...),
+		Outside:  append([]string{"K > 1 (B's outcome would depend on iteration order)", "influence of one replica on another across cycles through objects the explorer hands out (mergeScrapeStatus writes into them after all replicas were processed) - see DESIGN.md"}, cycleOutside...),
+	}
+	explPkg := "tkestack.io/kvass/pkg/explore"
+	t["C20"] = PropSpec{
+		ID: "C20", Pkg: explPkg, LoadPkgs: []string{coordPkg}, NativeDir: "explore",
+		Quick:    []HarnessRun{{Entry: "VExploreKernel", Args: []int{1}, Cosim: 6}, {Entry: "VExploreKernel", Args: []int{2}, Cosim: 6}},
+		Thorough: []HarnessRun{{Entry: "VExploreKernel", Args: []int{1}, Cosim: 8}, {Entry: "VExploreKernel", Args: []int{2}, Cosim: 8}},
+		Required: []string{"explore.ok", "explore.failed", "explore.end"},
+		Prefixes: []string{"C20."},
+		Bounds:   "sequential kernel: Get / exploreOnce / UpdateTargets on a table of <= 2 targets with a scripted probe (success with symbolic counts < 2^30, failure, unknown job); estimate through the real UpdateScrapeResult in floating-point theory",
+		Assume:   []string{"the probe function (Explore.explore) is a scripted closure; logging and metrics are no-ops; the needExplore channel is a bounded FIFO"},
+		Outside:  []string{"the retry loop, the at-most-one-probe-in-flight clause and every interleaving with discovery updates (Explore.Run spawns goroutines; no thread model was built)", "real timing of the retry interval"},
+	}
+	discPkg := "tkestack.io/kvass/pkg/discovery"
+	discSubst := map[string]string{
+		discPkg + ".targetsFromGroup": discPkg + ".vTargetsFromGroup",
+		"(*github.com/prometheus/prometheus/scrape.Target).Labels":           discPkg + ".vPromLabels",
+		"(*github.com/prometheus/prometheus/scrape.Target).DiscoveredLabels": discPkg + ".vPromDiscovered",
+	}
+	t["C17"] = PropSpec{
+		ID: "C17", Pkg: discPkg, LoadPkgs: []string{explPkg}, NativeDir: "discovery",
+		Quick:    []HarnessRun{{Entry: "VDisc", Args: []int{1, 1}, Subst: discSubst, Cosim: 12}, {Entry: "VExploreTable", Pkg: explPkg, Args: []int{2}, Cosim: 8}},
+		Thorough: []HarnessRun{{Entry: "VDisc", Args: []int{1, 1}, Subst: discSubst, Cosim: 16}, {Entry: "VDisc", Args: []int{2, 1}, Subst: discSubst, Cosim: 8}, {Entry: "VExploreTable", Pkg: explPkg, Args: []int{3}, Cosim: 8}},
+		Required: []string{"disc.update", "disc.reload", "disc.job.updated", "disc.job.untouched", "disc.reload.kept", "disc.reload.removed", "explore.update", "explore.reload", "explore.survivor"},
+		Prefixes: []string{"C17."},
+		Bounds:   "sequential histories: configuration with 2 jobs, a first (full or partial) discovery round, then one step - an update mentioning any subset of a known and an unknown job, or a reload that keeps / removes each job and adds one, followed by an update for a removed and the added job; 1 group (thorough 2) of <= 1 target per job and round, each target active or dropped; snapshot isolation of ActiveTargets / DropTargets / ActiveTargetsByHash across the step; explorer table over <= 2 (3) hashes",
+		Assume:   []string{"targetsFromGroup is replaced by a summary returning one entry per discovered address (active unless labelled drop=1); scrape.Target label accessors are summarised accordingly (its own behaviour is C15 / C02 territory); natively the real functions run on groups built to give the same outcome", "sync.Mutex Lock/Unlock are tracked (a lock taken twice, or an unlock without lock, ends the path as an error); logging is a no-op"},
+		Outside:  []string{"interleavings of readers and writers: no thread model was built, so the unlocked read of the configuration in translateTargets racing with ApplyConfig, and atomicity under concurrency, are not decided (sequential histories only)", "more than one step after the first round; more than 2 jobs"},
+	}
 	return t
 }
